@@ -135,5 +135,6 @@ pub closed spec fn mappings(&self) -> Mappings {
 
 }
 
+//@ AUTO-FREE-FNS
 } // verus!
 fn main() {}
